@@ -357,6 +357,13 @@ def apply_instr(op, args, sol, form_inst, used, branch):
         return min(r, c)
     if op == 'mul':
         return val(args[0]) * val(args[1])
+    if op == 'subroundup':
+        d = val(args[0]) - val(args[1])
+        unit = Fraction(args[2])
+        branch.append('floor' if d <= 0 else ('multiple' if d % unit == 0 else 'raised'))
+        if d <= 0:
+            return Fraction(0)
+        return -((-d) // unit) * unit
     if op == 'ratiocap1':
         a, b = val(args[0]), val(args[1])
         if b == 0:
@@ -386,7 +393,7 @@ def apply_instr(op, args, sol, form_inst, used, branch):
     raise ValueError(f'unknown op {op}')
 
 
-EXACT_OPS = ('add', 'addfloor0', 'addcap0', 'sub', 'subfloor0', 'smaller', 'larger', 'carry', 'cond', 'blank')
+EXACT_OPS = ('add', 'addfloor0', 'addcap0', 'sub', 'subfloor0', 'subroundup', 'smaller', 'larger', 'carry', 'cond', 'blank')
 
 
 # ------------------------------------------------------------------------------------------------------------------
